@@ -30,6 +30,7 @@ type ApCase struct {
 	Via      string `json:"via,omitempty"`      // buffer mode: NewBufferTransport | NewDefaultTransport
 	Readable int    `json:"readable,omitempty"` // generic: what ReadableLen of the wrapped object returns
 	NoLen    bool   `json:"nolen,omitempty"`    // generic: the wrapped object has no ReadableLen method
+	Live     []int  `json:"live,omitempty"`     // generic: the wrapped object's answers change from call to call (cyclic script)
 	Fn       string `json:"fn,omitempty"`       // registry: read | write | check
 	Reg      bool   `json:"reg,omitempty"`
 	CbErr    bool   `json:"cberr,omitempty"`
@@ -42,6 +43,19 @@ type rwReadable struct {
 }
 
 func (r *rwReadable) ReadableLen() int { return r.n }
+
+// rwLive: a live connection: every call of ReadableLen gets the next answer of the script; the answers given are recorded
+type rwLive struct {
+	rwOnly
+	script []int
+	given  []int
+}
+
+func (r *rwLive) ReadableLen() int {
+	v := r.script[len(r.given)%len(r.script)]
+	r.given = append(r.given, v)
+	return v
+}
 
 func toBytes(v []int) []byte {
 	b := make([]byte, len(v))
@@ -58,6 +72,23 @@ func runApCase(raw json.RawMessage, w *TraceWriter) {
 	}
 	switch c.Mode {
 	case "generic":
+		if len(c.Live) > 0 {
+			for round := 0; round < 3; round++ { // the script started at each of its first phases
+				k := round % len(c.Live)
+				lv := &rwLive{script: append(append([]int(nil), c.Live[k:]...), c.Live[:k]...)}
+				t := apache.NewDefaultTransport(lv)
+				rem := t.RemainingBytes()
+				r := -1
+				if rem != ^uint64(0) {
+					r = int(rem)
+					if rem > 1<<62 {
+						r = -2 // a "length" beyond any int: neither an exposed value nor unknown
+					}
+				}
+				w.Ev("dtlive", "answers", intsJSON(lv.given), "rem", r)
+			}
+			return
+		}
 		var rw io.ReadWriter
 		if c.NoLen {
 			rw = &rwOnly{}
@@ -350,6 +381,10 @@ func genApCases(c *Ctx) []json.RawMessage {
 		out = append(out, mustJSON(ApCase{Mode: "generic", Readable: r}))
 	}
 	out = append(out, mustJSON(ApCase{Mode: "generic", NoLen: true}))
+	// a live object whose readable length changes between two calls (bytes arrive / are consumed by another party)
+	for _, lv := range [][]int{{5, 0}, {5, -3}, {70000, -70000}, {0, 5}, {-1, 7}, {3, 9}, {9, 3, 0}, {1, 2, 3, 4}, {0, 0, 8}, {-2, -2}, {4, -1}, {1 << 20, 1}} {
+		out = append(out, mustJSON(ApCase{Mode: "generic", Live: lv}))
+	}
 	for _, fn := range []string{"read", "write", "check"} {
 		for _, reg := range []bool{false, true} {
 			for _, ce := range []bool{false, true} {
